@@ -455,9 +455,45 @@ def r8_printed_nul(run, F):
            "printed string is dropped" % (nul_unsafe, specs))
 
 
+def r9_radix_needs_digit(run, F, A):
+    """`0x` / `0b` followed by no digit is not a literal: the first-generation lexer says so by pushing the radix letter into
+    the suffix, which then fails the suffix table (E141).  For every `match u128::from_str_radix(&literal, R)` of the scanner:
+    the arm that handles the empty digit string pushes the radix letter of *this* radix into `suffix` (the two radix arms are
+    siblings and must agree), and no other arm turns a conversion error into a value."""
+    RADIX_LETTER = {16: 120, 2: 98}
+    b = A.body
+    n = 0
+    for m in hirq.matches(b["hir"]):
+        sc = hirq.unwrap_trivial(m["scrut"])
+        if sc.get("k") != "Call" or not (hirq.callee(sc) or "").endswith("::from_str_radix") or len(sc.get("a", [])) != 2:
+            continue
+        radix = hirq.unwrap_trivial(sc["a"][1]).get("v")
+        if radix not in RADIX_LETTER:
+            continue
+        n += 1
+        empty_arms = [a for a in m["arms"] if "guard" in a and any(x.get("k") == "MethodCall" and x.get("name") == "is_empty" for x in walk(a["guard"]))]
+        pushed = []
+        for a in empty_arms:
+            for x in walk(a["body"]):
+                if x.get("k") == "MethodCall" and x.get("name") == "push" and hirq.local_name_of(hirq.unwrap_trivial(x["recv"])) == "suffix":
+                    pushed.append(hirq.unwrap_trivial(x["a"][0]).get("v"))
+        lenient = []
+        for a in m["arms"]:
+            key = hirq.pat_key(hirq.pat_alts(a["pat"])[0])
+            if key.endswith("Err") and a not in empty_arms:
+                if any(hirq.short(p).endswith("Ok") for p, _ in hirq.constructs(a["body"])):
+                    lenient.append(a)
+        ok = len(empty_arms) == 1 and pushed in ([RADIX_LETTER[radix]], [chr(RADIX_LETTER[radix])]) and not lenient
+        run.ob("R9-RADIX-NEEDS-DIGIT", "radix %d" % radix, ok, F.where(b, m),
+               "radix-%d literal without a digit: the empty-digits arm must push %r into the suffix so that the suffix table rejects it (E141); "
+               "pushed %s, empty-digits arms %d, error arms that still produce a value %d" % (radix, chr(RADIX_LETTER[radix]), pushed, len(empty_arms), len(lenient)))
+    run.floor("R9-RADIX-NEEDS-DIGIT", 2, "from_str_radix matches for radix 16 and 2 in the first-generation scanner")
+
+
 def check(run):
     F = run.facts("B")
     A = r1_tables(run, F)
+    r9_radix_needs_digit(run, F, A)
     r1b_escape_state(run, F, A)
     r2_accumulation(run, F, A)
     r2b_no_narrowing(run, F)
